@@ -220,6 +220,24 @@ def check(present: List[bool], excl: List[bool], rev: List[bool], excl_root: boo
         VFS.rel_verdict2 = relv2
         _run(LNK, settings)
         return hc.report(_compare_tree(settings, dirs_l, excl_l, out, recursive, auto_ex, has_prefix, sep2, ext_t, ext_m, base=LNK), **args)
+    if MODE == "symdir":
+        # a symbolic link to a sibling directory inside the tree, links not followed (the default): the link is not walked, so it is
+        # not a processed directory -- no toctree entry, no pages
+        subs0 = dirs[BASE][0]
+        if len(subs0) == 0:
+            return True
+        target = pp.join(BASE, subs0[0])
+        alias = pp.join(BASE, "alias")
+        real_dirs = dict(dirs)
+        real_dirs[BASE] = (list(subs0) + ["alias"], dirs[BASE][1])
+        spec_dirs = dict(dirs)
+        spec_dirs[alias] = dirs[target]          # known to be a directory (the matcher is asked about it in directory form), never listed
+        VFS.reset(real_dirs, excluded)
+        VFS.links = {alias: target}
+        VFS.rel_verdict = relv
+        VFS.rel_verdict2 = relv2
+        _run(BASE, settings)
+        return hc.report(_compare_tree(settings, spec_dirs, excluded, out, recursive, auto_ex, has_prefix, sep2, ext_t, ext_m), **args)
     if MODE == "rel":
         # C17.a: same contents, other listing order / other working directory / relative input path => same files
         _run(BASE, settings)
